@@ -248,6 +248,79 @@ for _s in ['u-'] + BIN:
         call=_c, native_call=_n, bounded_domain_cap=60))
 
 
+# ---- F3': evaluation is compositional - an operator applies to the VALUE of its operand sub-tree, whatever node produced it -----------
+def _nest_call(chain, inner):
+    """real nodes: chain of prefix minuses over a real infix node `inner` over opaque leaves"""
+    def build(leaf):
+        from xlcalculator import ast_nodes
+        node = ast_nodes.OperatorNode(_tok(inner, 'operator-infix'))
+        node.left, node.right = leaf('L'), leaf('R')
+        for _ in range(chain):
+            up = ast_nodes.OperatorNode(_tok('-', 'operator-prefix'))
+            up.right = node
+            node = up
+        return node
+
+    def call(it, fn, l, r):
+        from xlcalculator import ast_nodes
+        log = []
+        vals = {'L': l, 'R': r}
+        node = build(lambda tag: Stub(tag, eval=ModelFn(lambda it_, c: (log.append(tag), vals[tag])[1], tag + '.eval')))
+        return it.call(ast_nodes.OperatorNode.eval, [node, Stub('ctx')], {}), tuple(log)
+
+    def native(fn, l, r):
+        log = []
+        vals = {'L': l, 'R': r}
+
+        class N:
+            def __init__(self, tag):
+                self.tag = tag
+
+            def eval(self, c):
+                log.append(self.tag)
+                return vals[self.tag]
+        return build(N).eval(None), tuple(log)
+    return call, native
+
+
+def _nest_ens(chain, inner):
+    sign = -1 if chain % 2 else 1
+
+    def ens(l, r, out):
+        if out.kind != 'ret':
+            return False
+        o = _O(out)
+        if o.log != ('L', 'R'):
+            return False
+        exp = _expect(inner, l, r)
+        if exp[0] == 'num':
+            return spec.is_number(o, exp[1] * sign, tol=1e-12)
+        if exp[0] == 'div':
+            a, b = exp[1], exp[2]
+            if is_sym(b):
+                return Ite(spec.eq(b, 0), spec.is_error(o, 'DivZeroExcelError'), spec.is_number(o, a / b * sign, tol=1e-12))
+            return spec.is_error(o, 'DivZeroExcelError') if b == 0 else spec.is_number(o, a / b * sign, tol=1e-12)
+        if exp[0] == 'bool':
+            b = exp[1]
+            return spec.is_number(o, (Ite(b, 1, 0) if is_sym(b) else int(bool(b))) * sign)
+        if exp[0] == 'text':
+            # the negation of a text is the negation of the number it reads as, or #VALUE!: a number or an error, never the text itself
+            return isinstance(o.value, (T().Number, spec.E().ExcelError))
+        return True
+    return ens
+
+
+for _chain in (1, 2, 3):
+    for _s in [b for b in BIN if b != '^']:
+        _c, _n = _nest_call(_chain, _s)
+        UNITS.append(Unit(
+            id=f'C01/ast_nodes.OperatorNode.eval/compositional[{"-" * _chain}(a{_s}b)]', target='xlcalculator.ast_nodes:OperatorNode.eval', fork='product',
+            inputs=[('l', NUMS), ('r', NUMS)],
+            cases=[Case('prefix minus applies to the VALUE of its operand sub-tree (number, truth value read as 1/0, text read as a number), however many are stacked',
+                        lambda l, r: True, _nest_ens(_chain, _s))],
+            call=_c, native_call=_n, bounded_domain_cap=40))
+
+
 # ---- F5: prefix rule of the tokenizer ------------------------------------------------------------------------------------
 TTYPES = ['noop', 'operand', 'function', 'subexpression', 'argument', 'operator-prefix', 'operator-infix', 'operator-postfix',
           'white-space', 'unknown']
